@@ -5,6 +5,7 @@ import (
 	"fmt"
 	"math/big"
 	"os"
+	"runtime/debug"
 	"sort"
 	"time"
 
@@ -12,8 +13,11 @@ import (
 	"verifharness/fw"
 	"verifharness/gen"
 
+	distkeeper "github.com/chain4energy/c4e-chain/x/cfedistributor/keeper"
 	disttypes "github.com/chain4energy/c4e-chain/x/cfedistributor/types"
+	minterkeeper "github.com/chain4energy/c4e-chain/x/cfeminter/keeper"
 	minttypes "github.com/chain4energy/c4e-chain/x/cfeminter/types"
+	vestkeeper "github.com/chain4energy/c4e-chain/x/cfevesting/keeper"
 	vesttypes "github.com/chain4energy/c4e-chain/x/cfevesting/types"
 	codectypes "github.com/cosmos/cosmos-sdk/codec/types"
 	sdk "github.com/cosmos/cosmos-sdk/types"
@@ -25,7 +29,7 @@ func init() {
 		ID: "C13", Level: "exploration",
 		Rule: "case = one chain (generated emission + sub-distributor configuration, with or without vesting pools) and a sequence of 8-40 parameter-update messages of all seven types (2 minter, 4 distributor, 1 vesting) interleaved with blocks so that the minter state advances. " +
 			"Payloads: valid, invalid, and valid-in-isolation-but-invalid-in-combination (drop the minter's current period, raise one share so the sum reaches 1, remove the MAIN-source sub-distributor, duplicate names, vesting denom change while pools exist). Authorities: governance, another account, empty, malformed. " +
-			"Routes: the governance execution path (ValidateBasic + registered handler on a branched context) and real signed DeliverTx from non-authority signers (authority = the signer; authority = gov but signed by somebody else). " +
+			"Routes: the governance execution path (ValidateBasic + registered handler on a branched context), real MsgSubmitProposal/MsgVote executed by x/gov, real signed DeliverTx from non-authority signers (authority = the signer; authority = gov but signed by somebody else), and for foreign / empty / malformed authorities also the routed handler and the module's MsgServer called directly. " +
 			"Oracle after every message: a non-governance message changes nothing (full snapshot); a rejected message leaves the raw params bytes of all three modules untouched; the stored params decode and pass the module's own Validate(); minter params contain the current MinterState.SequenceId; the vesting denom never changes while pools exist. " +
 			"Non-trivial: >=1 accepted and >=1 rejected governance update and >=1 non-governance attempt that reached DeliverTx. Distinct by sequence hash.",
 		Cases:         func(t string) int { return tierN(t, 384, 8000) },
@@ -205,6 +209,11 @@ func runC13(c *fw.Case) {
 			// wrapping message or another module would call it): the authority check belongs
 			// to the server, an empty or malformed authority is "another signer" too
 			herr := n.HandlerExec(msg)
+			if c.R.Intn(2) == 0 {
+				// ... and the module's message server as another module of the application would
+				// call it (the router in front of it runs the stateless checks once more)
+				herr = c13DirectServer(n, msg)
+			}
 			if p := asPanic(herr); p != nil {
 				c.ViolateD("C20/gov-update-panic", p.Stack, "%s panicked in the message server: %s", label, short(p.Value, 200))
 				continue
@@ -374,7 +383,7 @@ func c13Message(c *fw.Case, n *chain.Node, dk *distEnv, mc gen.MinterConfig, aut
 			}
 			nm := gen.Minters(r, "uc4e", 20).Params.Minters
 			last := *nm[len(nm)-1]
-			last.SequenceId = uint32(len(minters) + 1)
+			last.SequenceId = minters[len(minters)-1].SequenceId + 1
 			last.EndTime = nil
 			minters = append(minters, &last)
 			label = "period-appended"
@@ -574,4 +583,38 @@ func minterStepCost(start time.Time, minters []*minttypes.Minter, until time.Tim
 		cur = *m.EndTime
 	}
 	return worst
+}
+
+// c13DirectServer calls the module's MsgServer implementation directly on a branched
+// deliver-state context; effects are kept iff it succeeds.
+func c13DirectServer(n *chain.Node, msg sdk.Msg) (err error) {
+	defer func() {
+		if r := recover(); r != nil {
+			err = &chain.PanicError{Where: "MsgServer", Value: fmt.Sprint(r), Stack: string(debug.Stack())}
+		}
+	}()
+	cctx, write := n.Ctx().CacheContext()
+	g := sdk.WrapSDKContext(cctx)
+	switch m := msg.(type) {
+	case *minttypes.MsgUpdateParams:
+		_, err = minterkeeper.NewMsgServerImpl(n.App.CfeminterKeeper).UpdateParams(g, m)
+	case *minttypes.MsgUpdateMintersParams:
+		_, err = minterkeeper.NewMsgServerImpl(n.App.CfeminterKeeper).UpdateMintersParams(g, m)
+	case *disttypes.MsgUpdateParams:
+		_, err = distkeeper.NewMsgServerImpl(n.App.CfedistributorKeeper).UpdateParams(g, m)
+	case *disttypes.MsgUpdateSubDistributorParam:
+		_, err = distkeeper.NewMsgServerImpl(n.App.CfedistributorKeeper).UpdateSubDistributorParam(g, m)
+	case *disttypes.MsgUpdateSubDistributorDestinationShareParam:
+		_, err = distkeeper.NewMsgServerImpl(n.App.CfedistributorKeeper).UpdateSubDistributorDestinationShareParam(g, m)
+	case *disttypes.MsgUpdateSubDistributorBurnShareParam:
+		_, err = distkeeper.NewMsgServerImpl(n.App.CfedistributorKeeper).UpdateSubDistributorBurnShareParam(g, m)
+	case *vesttypes.MsgUpdateDenomParam:
+		_, err = vestkeeper.NewMsgServerImpl(n.App.CfevestingKeeper).UpdateDenomParam(g, m)
+	default:
+		return fmt.Errorf("no message server for %T", msg)
+	}
+	if err == nil {
+		write()
+	}
+	return err
 }
